@@ -327,6 +327,14 @@ def boundary_axis_rule(chk, repo):
                     axes.add(int(a[2][1].const_value()))
             chk.ob('C20-e', 'U-axis', f.key, f'component {k} reduces over axis {want_axis}', axes == {want_axis},
                    f'{"row" if k < 2 else "column"} bound computed from any(x, axis={sorted(axes)})', f.loc(p.node))
+            # ... and a bound counted back from the end of an axis is counted from the length of that axis
+            other = 1 if k < 2 else 0
+            lens = {int(a[2].const_value()) for a in nf.value_atoms(p.ret.items[k])
+                    if a[0] == 'idx' and isinstance(a[1], tuple) and a[1][0] == 'attr' and a[1][2] == 'shape'
+                    and isinstance(a[2], Poly) and a[2].const_value() is not None}
+            if lens:
+                chk.ob('C20-e', 'U-axis', f.key, f'component {k} uses the length of its own axis', other not in lens,
+                       f'{"row" if k < 2 else "column"} bound computed from shape[{sorted(lens)}]', f.loc(p.node))
 
 
 def _reduce_rules(chk, repo):
@@ -437,6 +445,7 @@ def centroid_rule(chk, repo, clause):
         if not (isinstance(p.ret, Tup) and len(p.ret) == 2):
             raise AnalysisError('util.centroid does not return a pair')
         i_, j_ = S('@i'), S('@j')
+        density = {}
         for ax in (0, 1):
             comp = p.ret.items[ax]
             ok, det = None, 'undecided: component is not a weighted sum over an index grid'
@@ -492,8 +501,22 @@ def centroid_rule(chk, repo, clause):
                 ok = el == want and whole and same_shape
                 det = f'weight[i, j] = {fmt(el)[:80]}, grid shape {tuple(map(fmt, wshape)) if wshape else "?"}' + \
                     ('' if ok else f'; image shape {tuple(map(fmt, ishape)) if ishape else "?"}; component = {fmt(comp)[:100]}')
+                # what is weighted is the image as given, divided by its total: a pedestal taken off first (img - img.min())
+                # turns an image without a zero sample - a mask that fills its array - into 0/0
+                Vs = nf.strip_apps(V, ('m:ravel', 'm:flatten', 'copy'))
+                stats = [a_ for a_ in nf.value_atoms(Vs) if is_app(a_, ('amin', 'amax', 'min', 'max', 'mean', 'median', 'm:min', 'm:max', 'm:mean'))]
+                okv = None
+                if isinstance(Vs, Poly):
+                    if stats or len(Vs.terms) > 1:
+                        okv = False
+                    elif Vs == S('img') * nf.app('sum', S('img')).pow(-1):
+                        okv = True
+                density[ax] = (okv, fmt(Vs)[:120])
                 break
             chk.ob(clause, 'U-axis', f.key, f'component {ax} weights the axis-{ax} index grid', ok, det, f.loc(p.node))
+            if ax in density:
+                chk.ob(clause, 'N-formula', f.key, f'component {ax}: the weights are the image as given over its total', density[ax][0],
+                       ('' if density[ax][0] else f'weights: {density[ax][1]}'), f.loc(p.node))
 
 
 def HALFN(n, f):
